@@ -333,6 +333,7 @@ OPERANDS = "[-8, 0.5, 1 / 3, NaN, Infinity, -Infinity, -0, 1e308, 5e-324, 900719
 
 
 def _walk_cases():
+    from mc.gen import programs as P
     out = [("walk after: " + name, {"src": src, "result": res}) for name, src, res in WALK_EXTRA]
     for op in ["+", "-", "*", "/", "%", "**", "&", "|", "^", "<<", ">>", ">>>", "<", "<=", "==", "===", "&&", "||", "in", "instanceof"]:
         src = ("var V = %s, res = []; for (var i = 0; i < V.length; i++) for (var j = 0; j < V.length; j++) { try { res.push(V[i] %s V[j]) } "
@@ -384,6 +385,28 @@ def _walk_cases():
                 src = "var kept = []; for (var q = 0; q < 2; q++) { try { " + (enc % body) + " } catch (ez) { kept.push(ez) } }"
             src = src.replace("__out(", "kept.push(")
             out.append(("walk after try shape %s inside %s" % (name, enc_name), {"src": src, "result": "kept"}))
+    # whole control structures (two nested constructs, every exit that stays inside them) written INSIDE a finally block that runs
+    # while an exception is pending, inside a catch block, and inside a finally block that interrupts a return
+    from mc.props import c02 as C02
+    import itertools as _it
+    inner_constructs = ["for", "forin", "forof", "switch", "sw_df_hit", "label", "trycatch", "tryfinally", "dowhile"]
+    for chain in _it.product(inner_constructs, repeat=2):
+        for ex in ("break", "continue", "lbreak0", "lbreak1", "lcontinue0", "lcontinue1"):
+            b = C02.inline_body(chain, ex, "iter1")
+            if b is None or P.early_error([("for", None, "false", None, b)], in_function=True):
+                continue
+            body = P.stmts(b)
+            if "continue" in ex and not any(k in P.LOOPS for k in chain):
+                continue
+            try:
+                for place, tmpl in (("finally-with-pending-exception", "try { try { throw new Error('boom') } finally { %s } } catch (e) { kept.push(e) }"),
+                                    ("catch-block", "try { null.x } catch (e) { kept.push(e); %s }"),
+                                    ("finally-interrupting-return", "kept.push((function () { try { return 'ret' } finally { %s } })());")):
+                    src = P.PRELUDE.replace("function g(x, y) { __out(x); __out(y); return x + y; }", "function g(x, y) { return x + y; }") +                         "var kept = []; function probe() { " + (tmpl % body) + " } try { probe() } catch (e2) { kept.push(e2) }"
+                    src = src.replace("__out(", "kept.push(")
+                    out.append(("walk after %s>%s exit %s inside a %s" % (chain[0], chain[1], ex, place), {"src": src, "result": "kept"}))
+            except Exception:  # noqa: BLE001
+                continue
     # typed arrays of every kind: fresh, after their buffer has been materialised, through views and subarrays
     for kind in ("Int8Array", "Uint8Array", "Uint8ClampedArray", "Int16Array", "Uint16Array", "Int32Array", "Uint32Array", "Float32Array", "Float64Array"):
         src = ("var t = new %s([1, 2, 3]); var before = [t[0], t[1], t[5], t.length]; var buf = t.buffer; var after = [t[0], t[2], t.length, buf.byteLength]; "
